@@ -421,6 +421,18 @@ pub fn c06_part(run: &RunInfo) -> Acc {
         ("neighbour-08d0".into(), vec![0x08, 0xd0, 0x00], true),
         ("abort-without-code".into(), vec![0x06, 0x1e, 0x00], true),
     ];
+    // data requests the upload cannot serve: a file that was not announced, no id, no offset, no
+    // file container, no TLV container
+    for (label, r) in [
+        ("request-for-unknown-file-77", Req::Data { id: Some(0x77), offset: Some(0) }),
+        ("request-for-absent-file-13", Req::Data { id: Some(0x13), offset: Some(0) }),
+        ("request-without-id", Req::Data { id: None, offset: Some(0) }),
+        ("request-without-offset", Req::Data { id: Some(0x10), offset: None }),
+        ("request-without-file", Req::NoFile),
+        ("request-without-tlv", Req::NoTlv),
+    ] {
+        faults.push((label.to_string(), codec.encode(req_ty, &r.value()).expect("reference request"), true));
+    }
     for cut in 1..completion.len() {
         faults.push((format!("completion-cut-at-{cut}"), completion[..cut].to_vec(), false));
     }
